@@ -123,6 +123,18 @@ pub fn sarr_str(a: &Array<String>) -> String {
     format!("sarr({}:{})", shape_str(&sh), es.iter().map(|s| format!(".{}", hex(s.as_bytes()))).collect::<Vec<_>>().join(","))
 }
 
+pub fn res_parr<T: Lab, S: Lab>(r: &Result<Array<Tuple2<T, S>>, ArrayError>) -> String {
+    match r {
+        Ok(a) => {
+            if let Some(v) = wf_violation(a) { return v; }
+            let sh = a.get_shape().unwrap();
+            let es = a.get_elements().unwrap();
+            format!("parr({}:{})", shape_str(&sh), es.iter().map(|t| format!("{}/{}", t.0.to_lab(), t.1.to_lab())).collect::<Vec<_>>().join(","))
+        }
+        Err(e) => err_str(e),
+    }
+}
+
 pub fn res_arr<T: Lab>(r: &Result<Array<T>, ArrayError>) -> String {
     match r { Ok(a) => arr_str(a), Err(e) => err_str(e) }
 }
